@@ -86,7 +86,13 @@ def T(n):
     a RatioDuration or a DirectDuration object - chosen by the value itself, so that a case always replays the same"""
     n = int(n)
     k = (abs(n) // 3) % 10
-    if n < 0 or os.environ.get("VERIF_FLOAT_ARGS") == "1" or k < 5:
+    if os.environ.get("VERIF_FLOAT_ARGS") == "1":
+        return n / TICK
+    if n < 0:
+        return Fraction(n, TICK) if k == 5 else f"{n}/{TICK}" if k == 6 else n / TICK
+    if n % TICK == 0 and k < 3:
+        return n // TICK                    # whole beats as a plain int
+    if k < 5:
         return n / TICK
     if k == 5:
         return Fraction(n, TICK)
